@@ -14,7 +14,7 @@ def c02_jobs(prop, tier, wd):
                         what=what, bounds='<= 3 tree nodes, <= 2 missing files', functions=fn))
     HB = os.path.join(fw.VERIF, 'harness', 'extract_b.cpp')
     n = 3 if tier == 'quick' else 5      # each function reads at most the token at the cursor and its predecessor
-    sb = {'_Z1SR15ExtractionState': 'stub_exS', '_Z1DR15ExtractionState': 'stub_exD', '_Z2MDR15ExtractionState': 'stub_exMD', '_Z1AR15ExtractionState': 'stub_exA'}
+    sb = {'_Z1SR15ExtractionState': 'stub_exS', '_Z1DR15ExtractionState': 'stub_exD', '_Z2MDR15ExtractionState': 'stub_exMD', '_Z1AR15ExtractionState': 'stub_exA', 'strtol': 'stub_ex_strtol'}
     for e in ['harness_exS', 'harness_exD', 'harness_exMD', 'harness_exA', 'harness_extract_tail']:
         J.append(fw.Job('extract.' + e, HB, e, tus=[], defines=['EX_N=%d' % n, 'MINISTL_STR_CAP=12', 'MINISTL_VEC_CAP=4', 'MINISTL_MAP_CAP=2', 'MINISTL_OPAQUE_CONCAT=1'], caps='caps_extract.hpp', unwind=4, tags=[prop, 'C09'], stubs=sb, native=False, timeout=600 if tier == 'quick' else 1500,
                         ub_pat=r'^(_Z\d|_ZN4Theo|_ZNSt|_ZNKSt|_ZSt)\S*\.(assertion|pointer_dereference|array_bounds)', extra=['--object-bits', '12'],
